@@ -458,6 +458,15 @@ def _errors_consumed(prog, f, name, after):
         if isinstance(n, ast.If) and isinstance(n.test, ast.Name) and n.test.id in derived:
             logs = any(callee_name(c) in ("log_errors", "log_error") for c in _calls(n.body))
             fails = _requests_failed(prog, f, n.body)
+            in_loop = False
+            p_ = getattr(n, "_parent", None)
+            while p_ is not None and p_ is not f.node:
+                if isinstance(p_, (ast.For, ast.While)):
+                    in_loop = True
+                p_ = getattr(p_, "_parent", None)
+            if logs and fails and in_loop and not terminates(n.body):
+                return False, "'if %s:' does not leave the iteration (continue): the failed " \
+                              "transition is still processed" % n.test.id
             if logs and fails:
                 return True, "consumed by 'if %s:'" % n.test.id
             return False, ("'if %s:' does not log" % n.test.id) if not logs else (
